@@ -49,7 +49,8 @@ POSITIONS = ["info.title", "info.description", "op.summary", "op.description", "
              "property.description", "enum.value", "string.default", "property.name", "query.name", "header.name", "tag", "discriminator.value",
              "media.type", "schema.title", "requestBody.description", "enum.description", "items.description", "example", "tag.description",
              "alias-union.description", "alias-array.description", "alias-scalar.description",
-             "server.description", "externalDocs.description", "inline-enum.value", "pathitem-param.description", "error-response.description"]
+             "server.description", "externalDocs.description", "inline-enum.value", "pathitem-param.description", "error-response.description",
+             "path.name"]
 NAME_POSITIONS = {"property.name", "query.name", "header.name", "tag"}
 HEADER_SAFE = {"header.name"}
 
@@ -60,7 +61,7 @@ def R(n):
 
 def build(texts):
     """reference document; texts: {position: string} (missing positions use the benign text)"""
-    prefix = {"query.name": "q", "header.name": "h", "property.name": "p", "tag": "t", "enum.value": "e", "inline-enum.value": "i", "discriminator.value": "d"}
+    prefix = {"query.name": "q", "header.name": "h", "property.name": "p", "tag": "t", "path.name": "v", "enum.value": "e", "inline-enum.value": "i", "discriminator.value": "d"}
 
     def t(k):
         # benign text per position; positions that share a namespace get distinct benign names
@@ -94,6 +95,13 @@ def build(texts):
                     "responses": {"200": {"description": "ok", "content": {media: {"schema": {"type": "string"}}}}},
                 },
             },
+            # a path variable on an operation with two request media types (that operation is rendered by a code path of its own)
+            "/photos/{%s}" % t("path.name"): {"post": {
+                "operationId": "uploadPhoto", "tags": [t("tag")],
+                "parameters": [{"name": t("path.name"), "in": "path", "required": True, "schema": {"type": "string"}}],
+                "requestBody": {"required": True, "content": {"application/json": {"schema": R("Thing")},
+                                                              "application/octet-stream": {"schema": {"type": "string", "format": "binary"}}}},
+                "responses": {"204": {"description": "stored"}}}},
             "/animals": {"get": {"operationId": "listAnimals", "tags": [t("tag")], "responses": {"200": {"description": "ok", "content": {
                 "application/json": {"schema": {"type": "array", "items": R("Animal")}}}}}}},
         },
